@@ -332,7 +332,10 @@ def flush_psk(ctx, pending):
 
 # ------------------------------------------------------------------------------------------------ Finished / Checker
 def fin_checker_case(ctx, case, pending):
-    """who: which side sends a wrong Finished (or None); checker: (side, 'ok'|'bad'|'nocert') or None"""
+    """who: which side sends a wrong Finished (or None); checker: (side, pin) or None with pin in
+    'ok' (fingerprint of the peer's END-ENTITY certificate), 'second' (fingerprint of the extra certificate V
+    the peer appends to its chain when case['multi'] — the attacker's chain [A, V] against a pin on V),
+    'bad' (a certificate that is nowhere in the chain), 'nocert' (right pin, peer sends no certificate)."""
     from tlslite.checker import Checker
     from tlslite.sessioncache import SessionCache
     ver, who, chk = case["ver"], case.get("who"), case.get("checker")
@@ -341,13 +344,25 @@ def fin_checker_case(ctx, case, pending):
     cch, ck = lab.creds("client_rsa")
     ckw, skw = {}, {}
     client_auth = not (chk and chk[1] == "nocert")
+    multi = bool(case.get("multi"))
     if chk:
+        from tlslite.x509certchain import X509CertChain
         side, good = chk
-        fp_s, fp_c = ch.getFingerprint(), cch.getFingerprint()
+        victim = lab.creds("ecdsa")[0].x509List[0]          # V: a certificate whose key the peer does not hold
+        absent = lab.creds("ed25519")[0].x509List[0]        # never part of any chain here
         if side == "client":
-            ckw["checker"] = Checker(x509Fingerprint=fp_s if good == "ok" else fp_c)
+            if multi:
+                ch = X509CertChain(list(ch.x509List) + [victim])
+            ee = ch.x509List[0]
         else:
-            skw["checker"] = Checker(x509Fingerprint=fp_c if good in ("ok", "nocert") else fp_s)
+            if multi:
+                cch = X509CertChain(list(cch.x509List) + [victim])
+            ee = cch.x509List[0]
+        pin = {"ok": ee, "nocert": ee, "second": victim, "bad": absent}[good].getFingerprint()
+        if side == "client":
+            ckw["checker"] = Checker(x509Fingerprint=pin)
+        else:
+            skw["checker"] = Checker(x509Fingerprint=pin)
     cache = SessionCache()
     L = lab.Lab()
     if client_auth:
@@ -369,11 +384,13 @@ def fin_checker_case(ctx, case, pending):
     out = _out(v)
     se = v.conn.session
     ctx.count("site:" + ("checker" if chk else "finished"))
-    ctx.count("class:%s" % ("checker-%s-%s" % chk if chk else ("fin-bad-from-" + who if who else "fin-honest")))
-    ctx.case(key=("fin", ver, who, chk, case.get("byte")), nontrivial=bool(who or (chk and chk[1] != "ok")))
+    ctx.count("class:%s" % (("checker-%s-%s" % chk + ("-multi" if multi else "")) if chk else ("fin-bad-from-" + who if who else "fin-honest")))
+    ctx.case(key=("fin", ver, who, chk, case.get("byte"), multi), nontrivial=bool(who or (chk and chk[1] != "ok")))
     must_fail = bool(who) or (chk is not None and chk[1] != "ok")
     if must_fail and out == "done":
         key = "c05:checker-mismatch-ignored" if chk else "c05:finished-mismatch-accepted"
+        if chk and chk[1] == "second" and multi:
+            key = "c05:checker-accepts-pin-on-non-end-entity-certificate"
         ctx.violation(key, "%s completed although %s" % (vname, "the Checker fingerprint does not match" if chk
                                                           else "the peer's Finished was wrong"),
                       {"kind": "fin", "case": case})
@@ -398,7 +415,10 @@ def fin_checker_case(ctx, case, pending):
             "hs12s ver:%d cv:%s" % (ver, "ok" if client_auth else "none")
     else:
         op = "hs13c cv:ok" if ver == 4 else "hs12c ver:%d ske:ok" % ver
-    line = "%s fin:%s" % (op, fin) + (" checker:%s" % ("ok" if chk[1] == "ok" else "bad") if chk else "")
+    ctok = None
+    if chk:
+        ctok = {"ok": "ok", "nocert": "bad", "bad": "bad", "second": "second" if multi else "bad"}[chk[1]]
+    line = "%s fin:%s" % (op, fin) + (" checker:%s" % ctok if chk else "") + (" extra:1" if (chk and multi) else "")
     if chk and chk[1] == "nocert":
         line = line.replace("checker:bad", "checker:ok")      # right fingerprint, but there is no chain to compare
     impl = ("done" if out == "done" else "fail " + out) + " " + \
@@ -452,6 +472,9 @@ def plan_other(thorough):
         for side in ("client", "server"):
             for good in ("ok", "bad"):
                 fin.append({"ver": ver, "checker": (side, good)})
+            for good in ("ok", "second", "bad"):
+                fin.append({"ver": ver, "checker": (side, good), "multi": True})
+            fin.append({"ver": ver, "checker": (side, "second")})
         fin.append({"ver": ver, "checker": ("server", "nocert")})
     return srp, psk, fin
 
